@@ -731,6 +731,21 @@ def created(ctx):
         multi = r.random() < 0.6
         files = [(r.choice(["a", "b.txt", "dir/c", "dir/d e", "é"]) + str(k), rbytes(r, r.choice([0, 1, 100, 20000]))) for k in range(r.randrange(1, 4))] \
             if multi else [("single.bin", rbytes(r, r.choice([0, 1, 5, 40000])))]
+        # options that decide which files are listed and in which order: the infohash create reports must be that of the
+        # dictionary it wrote, whatever that order is
+        if multi and r.random() < 0.6:
+            if r.random() < 0.5:    # distinct sizes, so that a size order differs from the path order
+                files = [(p, rbytes(r, 30 * (len(files) - k) + 7)) for k, (p, b) in enumerate(sorted(files))]
+                files += [("zz-small", rbytes(r, 1)), ("aa-big", rbytes(r, 5000))]
+            for _ in range(r.choice([1, 1, 2])):
+                opts += ["--sort-by", r.choice(["size", "size:descending", "path:descending", "path", "size:ascending", "path:ascending"])]
+        if multi and r.random() < 0.25:
+            files += [(".hidden", rbytes(r, 9)), ("Thumbs.db", rbytes(r, 11)), ("dir/.h2", rbytes(r, 3))]
+            if r.random() < 0.6: opts += ["--include-hidden"]
+            if r.random() < 0.6: opts += ["--include-junk"]
+        if multi and r.random() < 0.2:
+            opts += ["--glob", r.choice(["*1", "!*0", "dir/*", "*"])]
+        if r.random() < 0.15: opts += ["--peer", "peer.example.com:7"]
         jobs.append((j, opts, multi, files))
 
     def one(job):
